@@ -51,6 +51,7 @@ def run(ctx):
     # that rewrites an indexed column with its current value drops the row's only entry and a later INSERT of that key is accepted.
     dmlrules.index_delete_before_insert(ctx, "T4.DELETE-THEN-INSERT", [dmlrules.ENTRIES["update"]])
     answers_from_scan(ctx)
+    dmlrules.key_cleared_per_row(ctx, "T6.KEY-CLEARED-PER-ROW")
 
 
 def answers_from_scan(ctx):
